@@ -1182,3 +1182,8 @@ OSF = "OrderedSet.py"
 v("d162-xor-inherited", "C24", OSF, "    def __xor__(self, other):\n        # order by self, then other (the inherited operator lets another set, e.g. a keys view, answer with a plain set)\n        assert not isinstance(other, str)  # treat string as atomic value, not iterable\n        other = OrderedSet(other)\n        return OrderedSet(\n            [e for e in self if e not in other] + [e for e in other if e not in self]\n        )\n\n", "")
 v("d162-xor-delegates-to-other", "C24", OSF, "        other = OrderedSet(other)\n        return OrderedSet(\n            [e for e in self if e not in other] + [e for e in other if e not in self]\n        )\n", "        return OrderedSet([e for e in self if e not in other]) | (other - self)\n")
 v("d162-xor-twin-ordered-helpers", "C24", OSF, "        return OrderedSet(\n            [e for e in self if e not in other] + [e for e in other if e not in self]\n        )\n", "        left = [e for e in self if e not in other]\n        right = [e for e in other if e not in self]\n        return OrderedSet(left + right)\n", expect="silent")
+
+v("d163-generic-mod-truncates", "C05", SM, "    return f\"MOD(MOD({e0}, {e1}) + {e1p}, {e1})\"", "    return f\"MOD({e0}, {e1})\"")
+v("d163-generic-mod-floored-form-twin", "C05", SM, "    return f\"MOD(MOD({e0}, {e1}) + {e1p}, {e1})\"", "    return f\"({e0} - FLOOR({e0} / (1.0 * {e1p})) * {e1p})\"", expect="silent")
+v("d163-generic-remainder-truncates", "C05", SM, "    return f\"({e0} - FLOOR({e0} / (1.0 * {e1})) * {e1})\"", "    return f\"MOD({e0}, {e1})\"")
+v("d163-generic-mod-truncates-c02", "C02", SM, "    return f\"MOD(MOD({e0}, {e1}) + {e1p}, {e1})\"", "    return f\"MOD({e0}, {e1})\"")
